@@ -1,7 +1,6 @@
-(* C08 — concrete witnesses: the three defects of the real code that break the
-   property, replayed on the model (the tables are the ones the real runs of
-   the witness decks produce, surface payloads abstracted to naturals), plus a
-   non-vacuity example for the positive theorems. *)
+(* C08 — concrete tables (the ones the real runs of the former witness decks produce,
+   surface payloads abstracted to naturals) run through the model: non-vacuity examples for
+   the theorems. *)
 From Coq Require Import List NArith ZArith Bool String Ascii Lia.
 From T4V Require Import Base.Str C08.Model C08.Spec C08.ProofsSets C08.ProofsWrite C08.ProofsPrune C08.Check.
 Import ListNotations.
@@ -14,28 +13,56 @@ Definition cell_m1 (live : bool) : cell := mkCell "1" (Some 1) (Some "-1.0") "-1
 Definition cell_void : cell := mkCell "0" (Some 0) None "" false false.
 Definition mat_h : list (Z * matcard) := [(1, mkMat [("H1", "1.0")] true)].
 
-(* ---- #7: empty filler cell -> "INTE 1 None" (default options) ------------------------ *)
-Definition w7 : wstate nat :=
-  mkW [(1, sph "2.0" 1); (3, sph "10.0" 3); (4, sph "1.0" 4)]
-      [(14, mkVol [] [1] (Some (OInte, [None])) [(10, 1)] false);
-       (15, mkVol [] [1; 4] None [(11, 1)] false);
-       (16, mkVol [4] [1] None [(12, 1)] false)]
-      []
-      [(10, cell_m1 false); (11, cell_m1 false); (12, cell_m1 false);
-       (14, cell_m1 true); (15, cell_m1 true); (16, cell_m1 true)]
+(* The three defects below were found on the unrepaired code (refutation theorems with
+   these witnesses were part of this file) and have been repaired in /repo by the commits
+   named; the same tables are now positive examples. *)
+
+(* ---- #7 (fix 3f9f4fd): an empty filler cell is a stand-in empty volume (22), removed by
+   remove_empty_volumes together with the intersections that use it ---------------------- *)
+Definition surfs7 : stable nat :=
+  [(1, sph "2.0" 1); (2, plane "PLANEX" "0.5" ["2"] 2); (3, sph "10.0" 3); (4, sph "1.0" 4);
+   (6, plane "PLANEX" "1" ["aux plane for unions"] 6); (7, plane "PLANEX" "-1" ["aux plane for unions"] 7)].
+
+Definition vols7 : vtable :=
+  [(22, mkVol [6] [6] None [] true);
+   (20, mkVol [] [1] (Some (OInte, [Some 22])) [(10, 1)] true);
+   (14, mkVol [] [1] (Some (OInte, [Some 22])) [(10, 1)] false);
+   (23, mkVol [] [1; 4] None [(11, 1)] true); (15, mkVol [] [1; 4] None [(11, 1)] false);
+   (24, mkVol [4] [1] None [(12, 1)] true); (16, mkVol [4] [1] None [(12, 1)] false);
+   (26, mkVol [1] [3] (Some (OInte, [Some 22])) [(10, 2)] true);
+   (17, mkVol [1] [3] (Some (OInte, [Some 22])) [(10, 2)] false);
+   (28, mkVol [1] [3; 4] None [(11, 2)] true); (18, mkVol [1] [3; 4] None [(11, 2)] false);
+   (30, mkVol [1; 4] [3] None [(12, 2)] true); (19, mkVol [1; 4] [3] None [(12, 2)] false)].
+
+Definition w7 (surfs : stable nat) (vols : vtable) : wstate nat :=
+  mkW surfs vols [3]
+      [(1, cell_void); (2, cell_void); (3, cell_void);
+       (10, cell_m1 false); (11, cell_m1 false); (12, cell_m1 false);
+       (14, cell_m1 true); (15, cell_m1 true); (16, cell_m1 true);
+       (17, cell_m1 true); (18, cell_m1 true); (19, cell_m1 true)]
       mat_h [] [] false false false.
 
-Theorem none_operand_refuted :
-  exists (w : wstate nat) f,
-    write_file None w = Complete f /\ ~ wf_file f /\
-    In "VOLU 14 EQUA MINUS 1 1 INTE 1 None ENDV // (10, 1)"%string (print_file f).
+Theorem empty_filler_example :
+  refs_ok surfs7 vols7 /\ helpers_ok Nat.eqb surfs7 6 7 /\
+  exists surfs' vols' ren' f,
+    prune Nat.eqb false surfs7 vols7 6 7 = Ok (surfs', vols', ren') /\
+    wf_state (w7 surfs' vols') /\
+    write_file ren' (w7 surfs' vols') = Complete f /\ wf_file f /\
+    vol_ids f = [15; 16; 18; 19] /\ surf_ids f = [1; 3; 4].
 Proof.
-  exists w7. eexists. split; [vm_compute; reflexivity|]. split.
-  - apply wf_fileb_false. vm_compute. reflexivity.
-  - vm_compute. tauto.
+  split; [apply refs_okb_sound; vm_compute; reflexivity|]. split.
+  { constructor; [apply nodupb_NoDup; vm_compute; reflexivity| |lia].
+    eexists. eexists. split; [right; right; right; right; left; reflexivity|].
+    split; [right; right; right; right; right; left; reflexivity|]. reflexivity. }
+  eexists. eexists. eexists. eexists. split; [vm_compute; reflexivity|].
+  split; [apply wf_stateb_sound; vm_compute; reflexivity|].
+  split; [vm_compute; reflexivity|].
+  split; [apply wf_fileb_ok; vm_compute; reflexivity|].
+  split; vm_compute; reflexivity.
 Qed.
 
-(* ---- #8: user plane equal to a union helper plane ------------------------------------- *)
+(* ---- #8 (fix a12128b): user plane equal to a union helper plane; the helper numbers
+   follow the renumbering (5 -> 1) ------------------------------------------------------------ *)
 Definition surfs8 : stable nat :=
   [(1, plane "PLANEX" "1.0" [] 10); (2, plane "PLANEY" "0.0" [] 20); (3, plane "PLANEY" "0.0" [] 20);
    (5, plane "PLANEX" "1" ["aux plane for unions"] 10); (6, plane "PLANEX" "-1" ["aux plane for unions"] 30)].
@@ -50,49 +77,43 @@ Definition vols8 : vtable :=
    (2, mkVol [1] [] (Some (OInte, [Some 7])) [] false)].
 
 Definition w8 (surfs : stable nat) (vols : vtable) : wstate nat :=
-  mkW surfs vols [] [(1, cell_m1 true); (2, cell_void)] mat_h [] [] false false false.
+  mkW surfs vols [] [(1, cell_m1 true); (2, mkCell "0" (Some 0) None "" false true)] mat_h [] [] false false false.
 
-Theorem helper_plane_refuted :
-  exists (surfs : stable nat) vols u0 u1,
-    refs_ok surfs vols /\ u0 <> u1 /\ In u0 (keys surfs) /\ In u1 (keys surfs) /\
-    ~ helpers_survive Nat.eqb false surfs u0 u1 /\
-    (exists surfs' vols' ren' sl,
-       prune Nat.eqb false surfs vols u0 u1 = Ok (surfs', vols', ren') /\
-       write_file ren' (w8 surfs' vols') = Died true sl EKey /\
-       print_outcome (Died true sl EKey) =
-         (geometry_head ++ ["SURF 1 PLANEX 1.0"; "SURF 2 PLANEY 0.0"]%string)%list) /\
-    (* the same tables are written completely and correctly without de-duplication *)
-    (exists surfs' vols' ren' f,
-       prune Nat.eqb true surfs vols u0 u1 = Ok (surfs', vols', ren') /\
-       write_file ren' (w8 surfs' vols') = Complete f /\ wf_file f).
+Theorem helper_plane_example :
+  refs_ok surfs8 vols8 /\ helpers_ok Nat.eqb surfs8 5 6 /\
+  exists surfs' vols' ren' f,
+    prune Nat.eqb false surfs8 vols8 5 6 = Ok (surfs', vols', ren') /\
+    write_file ren' (w8 surfs' vols') = Complete f /\ wf_file f /\
+    In "VOLU 1 EQUA PLUS 1 1 MINUS 1 6 UNION 1 6 ENDV"%string (print_file f) /\
+    surf_ids f = [1; 2; 6].
 Proof.
-  exists surfs8, vols8, 5, 6. split; [apply refs_okb_sound; vm_compute; reflexivity|].
-  split; [lia|]. split; [vm_compute; tauto|]. split; [vm_compute; tauto|]. split.
-  - unfold helpers_survive. vm_compute. intros [[H|[H|[H|[]]]] _]; discriminate.
-  - split.
-    + eexists. eexists. eexists. eexists. split; [vm_compute; reflexivity|]. split; vm_compute; reflexivity.
-    + eexists. eexists. eexists. eexists. split; [vm_compute; reflexivity|]. split; [vm_compute; reflexivity|].
-      apply wf_fileb_ok. vm_compute. reflexivity.
+  split; [apply refs_okb_sound; vm_compute; reflexivity|]. split.
+  { constructor; [apply nodupb_NoDup; vm_compute; reflexivity| |lia].
+    eexists. eexists. split; [right; right; right; left; reflexivity|].
+    split; [right; right; right; right; left; reflexivity|]. reflexivity. }
+  eexists. eexists. eexists. eexists. split; [vm_compute; reflexivity|].
+  split; [vm_compute; reflexivity|].
+  split; [apply wf_fileb_ok; vm_compute; reflexivity|].
+  split; [vm_compute; tauto|vm_compute; reflexivity].
 Qed.
 
-(* ---- #16: material token "01" ------------------------------------------------------------ *)
+(* ---- #16 (fix d8902ad): material token "01" ------------------------------------------------- *)
 Definition w16 : wstate nat :=
   mkW [(1, sph "2.0" 1)] [(1, mkVol [] [1] None [] false)] []
       [(1, mkCell "01" (Some 1) (Some "-1.0") "-1.0" true true); (2, cell_void)]
       mat_h [] [] false false false.
 
-Theorem leading_zero_refuted :
-  exists (w : wstate nat) f g c,
-    write_file None w = Complete f /\ ~ wf_file f /\
-    f_geomcomp f = Some g /\ map gc_name g = ["m01_-1.0"%string] /\
-    f_comps f = Some c /\ map cb_name (snd c) = ["m1_-1.0"; "m0"]%string /\
-    (* everything else about the tables is in order *)
-    refs_ok (w_surfs w) (w_vols w) /\ sides_ok (w_vols w).
+Theorem leading_zero_example :
+  wf_state w16 /\
+  exists f g c,
+    write_file None w16 = Complete f /\ wf_file f /\
+    f_geomcomp f = Some g /\ map gc_name g = ["m1_-1.0"%string] /\
+    f_comps f = Some c /\ map cb_name (snd c) = ["m1_-1.0"; "m0"]%string.
 Proof.
-  exists w16. eexists. eexists. eexists. split; [vm_compute; reflexivity|]. split.
-  - apply wf_fileb_false. vm_compute. reflexivity.
-  - do 4 (split; [vm_compute; reflexivity|]).
-    split; [apply refs_okb_sound|apply sides_okb_sound]; vm_compute; reflexivity.
+  split; [apply wf_stateb_sound; vm_compute; reflexivity|].
+  eexists. eexists. eexists. split; [vm_compute; reflexivity|].
+  split; [apply wf_fileb_ok; vm_compute; reflexivity|].
+  do 3 (split; [vm_compute; reflexivity|]). vm_compute. reflexivity.
 Qed.
 
 (* ---- flagged surfaces after the repair of writeT4BoundCond: surface 5 is not used by any
@@ -142,7 +163,7 @@ Definition w_ex (surfs : stable nat) (vols : vtable) : wstate nat :=
       [(4, "*"%string)] false false false.
 
 Theorem example_pipeline :
-  refs_ok surfs_ex vols_ex /\ helpers_survive Nat.eqb false surfs_ex 7 8 /\
+  refs_ok surfs_ex vols_ex /\ helpers_ok Nat.eqb surfs_ex 7 8 /\
   exists surfs' vols' ren' f,
     prune Nat.eqb false surfs_ex vols_ex 7 8 = Ok (surfs', vols', ren') /\
     wf_state (w_ex surfs' vols') /\
@@ -150,8 +171,10 @@ Theorem example_pipeline :
     f_bc f = Some (1%N, [("REFLECTION"%string, 2)]) /\
     List.length (f_vols f) = 4%nat /\ surf_ids f = [1; 2; 3; 7; 8].
 Proof.
-  split; [apply refs_okb_sound; vm_compute; reflexivity|].
-  split; [vm_compute; tauto|].
+  split; [apply refs_okb_sound; vm_compute; reflexivity|]. split.
+  { constructor; [apply nodupb_NoDup; vm_compute; reflexivity| |lia].
+    eexists. eexists. split; [right; right; right; right; left; reflexivity|].
+    split; [right; right; right; right; right; left; reflexivity|]. reflexivity. }
   eexists. eexists. eexists. eexists. split; [vm_compute; reflexivity|].
   split; [apply wf_stateb_sound; vm_compute; reflexivity|].
   split; [vm_compute; reflexivity|].
